@@ -73,10 +73,10 @@ def run(chk, tier, seed):
              spec("-9223372036854775808", "9223372036854775807"), rng(["-9223372036854775808"], ["-9223372036854775807"]),
              spec("000000000000000000000012"), spec("4", "-00000000000000000005", "6"), rng(["1"], ["+3"]), rng(["-1", "2", "3"], ["+4", "5", "6"])]
     mixed = [rng(["1"], ["2", "3"]), rng(["1", "2"], ["3"]), rng(["1", "2", "3"], ["4", "5"])]
-    run_one(chk, "numeric", False, nums, [], 5 if th else 3)
-    run_one(chk, "channel", True, chans, mixed, 4 if th else 3)
+    run_one(chk, "numeric", False, nums, [], 4 if th else 3)
+    run_one(chk, "channel", True, chans, mixed, 3)
     chk.cov["exhaustive"] = True
-    chk.cov["rule"] = (f"every numeric list of <= {5 if th else 3} entries over {len(nums)} entry templates (signs, decimals, bare '.', exponents, ranges) and every channel list of <= {4 if th else 3} entries over {len(chans)} templates "
+    chk.cov["rule"] = (f"every numeric list of <= {4 if th else 3} entries over {len(nums)} entry templates (signs, decimals, bare '.', exponents, ranges) and every channel list of <= 3 entries over {len(chans)} templates "
                        "(1-3 dimensions, signed dimensions, ranges of each dimension, quoted path names containing ',' ':' '!') plus ranges with ends of different dimension; each also with every applicable single corruption "
                        "(leading comma, doubled comma, missing separator, third range end, foreign character); every yielded spec is viewed through the dimension iterator, dimension()/len() and all tuple conversions; "
                        "non-trivial = corrupted lists and lists containing specs")
